@@ -27,7 +27,7 @@ TECHNIQUE = "abstract interpretation of generate_listing/emit_files on an order-
 def rule_listing(ck):
     repo = ck.repo
     I = eager_interp(repo)
-    I.summaries = {"reports::emit_report": emit_report_summary, "deferred::wait": lambda I_, fn, a, k: a[0]}
+    I.summaries = {"reports::emit_report": emit_report_summary}       # the real wait(): symbol values are deferred objects, evaluated by then
     table = [
         (".internal1.zeta", 0o1000), (".internal1.alpha", 0o1010), (".internal1.beta", 0o1000), (".internal2.gamma", 5), (".internal1.Big", 0o1234567),
         (".local3.1", 0o1004), (".internal2.delta", 0o177777), (".internal1.a.b", 0o1004), (".internal2.Huge", 0o1000000), (".internal2.mid", 0o200000),
@@ -36,7 +36,15 @@ def rule_listing(ck):
     def thunk():
         comp = I.instantiate(I.module_get("compiler", "Compiler"), [], {})
         syms = comp.fields["symbols"]
-        for k, v in table:
+        for i, (k, v) in enumerate(table):
+            if i % 2 == 0:
+                # label addresses and constants are stored as deferred values (promise / thunk), settled by the closing wait
+                if i % 4 == 0:
+                    pr = I.instantiate(I.module_get("deferred", "Promise"), [I.builtin_types["int"], k], {})
+                    I.call_method(pr, "settle", [v])
+                else:
+                    pr = I.instantiate(I.module_get("deferred", "Deferred"), [I.builtin_types["int"], PyFn(lambda I_, a_, k_, v=v: v, "value")], {})
+                v = pr
             I.call_method(syms, "__setitem__", [k, (sym.var("tok", "obj"), v)])
         comp.fields["internal_prefix_to_state"] = {1: {"filename": "/src/a.mac"}, 2: {"filename": "/src/b.mac"}}
         return I.call_method(comp, "generate_listing", [])
